@@ -15,10 +15,11 @@ type scopeEntry struct {
 	lambda int // stamp of the binding lambda
 }
 
-// binders maps the stamp of every symbol occurrence in VALUE position (not the
-// function symbol of a call, which R3 resolves among the globals only) to the
-// stamp of the lambda binding it (0 = not bound by a lambda).
-func binders(e b6.Expression, scope []scopeEntry, out map[int]int, names map[int]string) {
+// binders maps the stamp of every symbol occurrence to the stamp of the lambda
+// binding it (0 = not bound by a lambda). The function symbol of a call is
+// resolved among the globals only (R3, and what api.compileCall does), so it is
+// never bound by a lambda; such occurrences are also recorded in callPos.
+func binders(e b6.Expression, scope []scopeEntry, out map[int]int, names map[int]string, callPos map[int]bool) {
 	switch x := e.AnyExpression.(type) {
 	case b6.SymbolExpression:
 		b := 0
@@ -36,25 +37,29 @@ func binders(e b6.Expression, scope []scopeEntry, out map[int]int, names map[int
 		for i := len(x.Args) - 1; i >= 0; i-- {
 			inner = append(inner, scopeEntry{x.Args[i], e.Begin})
 		}
-		binders(x.Expression, inner, out, names)
+		binders(x.Expression, inner, out, names, callPos)
 	case b6.CallExpression:
-		if _, ok := x.Function.AnyExpression.(b6.SymbolExpression); !ok {
-			binders(x.Function, scope, out, names)
+		if sym, ok := x.Function.AnyExpression.(b6.SymbolExpression); ok {
+			out[x.Function.Begin] = 0
+			names[x.Function.Begin] = string(sym)
+			callPos[x.Function.Begin] = true
+		} else {
+			binders(x.Function, scope, out, names, callPos)
 		}
 		for _, a := range x.Args {
-			binders(a, scope, out, names)
+			binders(a, scope, out, names, callPos)
 		}
 	}
 }
 
 // StaticBindingCheck reports how api.Simplify changed symbol bindings:
-// "" when every value-position symbol of the simplified tree s is bound by
-// the same lambda as in the original p (or is a global in both).
+// "" when every symbol of the simplified tree s is bound by the same lambda as
+// in the original p (or is a global in both).
 func (l *Lib) StaticBindingCheck(p, s b6.Expression) (class string, detail string) {
-	bp, np := map[int]int{}, map[int]string{}
-	bs, ns := map[int]int{}, map[int]string{}
-	binders(p, nil, bp, np)
-	binders(s, nil, bs, ns)
+	bp, np, cp := map[int]int{}, map[int]string{}, map[int]bool{}
+	bs, ns, cs := map[int]int{}, map[int]string{}, map[int]bool{}
+	binders(p, nil, bp, np, cp)
+	binders(s, nil, bs, ns, cs)
 	// deterministic order: by stamp
 	max := 0
 	for k := range bs {
@@ -67,7 +72,7 @@ func (l *Lib) StaticBindingCheck(p, s b6.Expression) (class string, detail strin
 		if !ok {
 			continue
 		}
-		orig, known := bp[st] // unknown: was the function symbol of a call in p => a global
+		orig, known := bp[st] // unknown: a node Simplify created; treated as a global
 		if known && np[st] != ns[st] {
 			return "harness:stamp-mismatch", fmt.Sprintf("stamp %d is %q in the original and %q after Simplify", st, np[st], ns[st])
 		}
@@ -78,6 +83,8 @@ func (l *Lib) StaticBindingCheck(p, s b6.Expression) (class string, detail strin
 					return "free-symbol-not-global", fmt.Sprintf("symbol %q is free in the simplified tree and not a global", ns[st])
 				}
 			}
+		case orig != 0 && b == 0 && cs[st]:
+			return "parameter-moved-into-call-position", fmt.Sprintf("parameter %q became the function symbol of a call, where only globals are looked up", ns[st])
 		case orig != 0 && b == 0:
 			if _, isGlobal := l.Global(ns[st]); isGlobal {
 				return "parameter-rebound-to-global", fmt.Sprintf("parameter %q now denotes the global of that name", ns[st])
